@@ -8,10 +8,13 @@ What is FALSE on the current tree and kept visible as `def … : Prop` with its 
   source has no such profile (finding, replayed by the harness);
 * `ImportIntoLogicallyEmptySucceeds` — a target profile holding only *expired* rows passes the emptiness test, but a
   source record under the identity of such a row makes the whole copy fail with Duplicate (finding D8 of C17 reaching C18).
-Open (stated in Lemmas/Copy.lean, `OPEN`): the all-profiles form of `copy_store_all_profiles`; proved here are every
-step of its loop (`copy_profile_exact` with its frame clause) and `copy_store_default_carried`.
+The whole-store statement `copy_store_all_profiles` (names, default profile and every profile's content at the end
+of the `copy_to` loop) is proved from the loop invariant of the target (`Lemmas.TargetInv`: key cache coherent with the
+`profiles` table, unique names and ids, FK, no expiry), in the general form with the dangling default profile stated
+explicitly (`copy_store_all_profiles_gen`) and in the exact form under "the default profile is one of the profiles".
 -/
 import AskarModel.Lemmas.Copy
+import AskarModel.Lemmas.Wql
 
 namespace Askar.Copy
 open Askar.Store
@@ -88,11 +91,81 @@ theorem copy_independent_of_target_method (page : Nat) (now : Int) (n₁ n₂ : 
   Lemmas.copy_independent_of_target_method page now n₁ n₂ src dst₁ dst₂ P P₁ P₂ s₁ d₁ s₂ d₂ m₁ m₂ hsorted h₁ h₂
 
 /-- Whole-store copy (`copy_store` / `copy_to`), the part proved for the loop as a whole: source untouched, default
-    profile carried.  (Per profile: `copy_profile_exact`; the all-profiles statement is OPEN, see Lemmas/Copy.lean.) -/
+    profile carried.  (Per profile: `copy_profile_exact`; all profiles at the end of the loop: `copy_store_all_profiles`.) -/
 theorem copy_store_default_carried (page : Nat) (now : Int) (keyBase : Nat) (src src' dst' : StoreSt) (existing : Option StoreSt)
     (h : copyStore page now none keyBase src existing true = (src', some dst', .ok ())) :
     src'.db = src.db ∧ src'.default = src.default ∧ dst'.default = src.default :=
   Lemmas.copy_store_default_carried page now keyBase src src' dst' existing h
+
+/-- One successful iteration of the `copy_to` loop preserves the invariant of the *target* (`Lemmas.TargetInv`: the
+    handle's key cache agrees with the `profiles` table, names and ids are unique, every row belongs to a profile, no
+    row expires) and the coherence of the source's cache; it adds at most the name `P` to the target's table; the
+    target profile `P` ends with the source profile's live records under its own key; every profile with another id
+    keeps its rows.  This is the loop invariant the whole-store theorem rests on. -/
+theorem copy_loop_step_invariant (page : Nat) (now : Int) (n : Nat) (src dst : StoreSt) (P : String)
+    (src' dst' : StoreSt) (n' : Nat) (hsorted : Sorted src.db) (hcs : CacheCoherent src.db src.h) (hI : Lemmas.TargetInv dst)
+    (h : copyProfile page now none n src dst P P = (src', dst', n', .ok ())) :
+    src'.db = src.db ∧ CacheCoherent src.db src'.h ∧ Lemmas.TargetInv dst' ∧
+    (∀ name, name ∈ dst'.db.profiles.map (·.name) ↔ name ∈ dst.db.profiles.map (·.name) ∨ name = P) ∧
+    (∀ q ∈ dst.db.profiles, q ∈ dst'.db.profiles) ∧
+    ∃ ss sd : Sess, (⟨ss.pid, P, ss.key⟩ : Profile) ∈ src.db.profiles ∧ (⟨sd.pid, P, sd.key⟩ : Profile) ∈ dst'.db.profiles ∧
+      abs sd dst'.db = liveAbs now ss src.db ∧ KeyCoherent sd dst'.db ∧
+      (∀ s : Sess, s.pid ≠ sd.pid → abs s dst'.db = abs s dst.db ∧ (KeyCoherent s dst.db → KeyCoherent s dst'.db)) :=
+  Lemmas.copyProfile_step page now n src dst P src' dst' n' hsorted hcs hI h
+
+/-- the freshly provisioned target satisfies the invariant -/
+theorem provision_target_invariant (keyBase : Nat) (profile : String) : Lemmas.TargetInv (provision keyBase profile) :=
+  Lemmas.provision_targetInv keyBase profile
+
+/-- Whole-store copy, general form (nothing assumed about `config.default_profile`): after a successful `copy_store` /
+    `copy_to` onto a freshly provisioned target (`existing = none`, or `recreate = true`), for any number of profiles,
+    any record counts and any page size:
+    * the source's tables and default profile are untouched, its key cache stays coherent;
+    * the target has the source's default profile name;
+    * the target's key cache is coherent with its `profiles` table, names and ids are unique, every row belongs to a
+      profile of the table, no row carries an expiry;
+    * the target's profile names are the source's profile names *plus the source's default profile name*;
+    * every source profile `p` — which the source's own handle resolves to `(p.id, p.key)` — resolves through the
+      target's own handle to a session whose whole content (`abs`) is exactly the live content of `p` in the source, in
+      order, every row of it under the target session's key;
+    * when the default profile name is dangling, the extra target profile is empty.
+    Hypotheses: `Sorted` (row ids increase in creation order — `run_sorted`; the scan is `ORDER BY id`), `ProfilesWF`
+    (UNIQUE(name), PRIMARY KEY(id) of `profiles`), `CacheCoherent` for the *source* handle (C07: what every reachable
+    handle satisfies after the repair of D7; without it a stale cache entry makes `copy_profile` read another profile's
+    rows, e.g. cache `[("a", 2, k₂)]` over profiles `[⟨1,"a",k₁⟩, ⟨2,"b",k₂⟩]`). -/
+theorem copy_store_all_profiles_gen (page : Nat) (now : Int) (keyBase : Nat) (src src' dst' : StoreSt)
+    (existing : Option StoreSt) (recreate : Bool) (hfresh : existing = none ∨ recreate = true)
+    (hs : Sorted src.db) (hwf : ProfilesWF src.db) (hcc : CacheCoherent src.db src.h)
+    (h : copyStore page now none keyBase src existing recreate = (src', some dst', .ok ())) :
+    (src'.db = src.db ∧ src'.default = src.default ∧ CacheCoherent src.db src'.h) ∧ dst'.default = src.default ∧
+    (CacheCoherent dst'.db dst'.h ∧ ProfilesWF dst'.db ∧ FkInv dst'.db ∧ ∀ it ∈ dst'.db.items, it.expiry = none) ∧
+    (∀ name, name ∈ dst'.db.profiles.map (·.name) ↔ name ∈ src.db.profiles.map (·.name) ∨ name = src.default) ∧
+    (∀ p ∈ src.db.profiles, ∃ (hs' : Handle) (sd : Sess) (hd : Handle),
+      resolve src.db src.h p.name = .ok (⟨p.id, p.key⟩, hs') ∧
+      resolve dst'.db dst'.h p.name = .ok (sd, hd) ∧
+      abs sd dst'.db = liveAbs now ⟨p.id, p.key⟩ src.db ∧ KeyCoherent sd dst'.db) ∧
+    (src.default ∉ src.db.profiles.map (·.name) → ∃ (sd : Sess) (hd : Handle),
+      resolve dst'.db dst'.h src.default = .ok (sd, hd) ∧ abs sd dst'.db = []) :=
+  Lemmas.copy_store_all_profiles_gen page now keyBase src src' dst' existing recreate hfresh hs hwf hcc h
+
+/-- **copy_store_all_profiles**: the same when the source's default profile is one of its profiles (the hypothesis
+    `CopyStoreSameProfiles` lacks, see `copy_store_same_profiles_refuted`): the target's profile names are *exactly* the
+    source's (a permutation without duplicates), the default profile is the same, and every profile holds exactly the
+    source profile's live records. -/
+theorem copy_store_all_profiles (page : Nat) (now : Int) (keyBase : Nat) (src src' dst' : StoreSt)
+    (existing : Option StoreSt) (recreate : Bool) (hfresh : existing = none ∨ recreate = true)
+    (hs : Sorted src.db) (hwf : ProfilesWF src.db) (hcc : CacheCoherent src.db src.h)
+    (hdef : src.default ∈ src.db.profiles.map (·.name))
+    (h : copyStore page now none keyBase src existing recreate = (src', some dst', .ok ())) :
+    (src'.db = src.db ∧ src'.default = src.default ∧ CacheCoherent src.db src'.h) ∧ dst'.default = src.default ∧
+    (CacheCoherent dst'.db dst'.h ∧ ProfilesWF dst'.db ∧ FkInv dst'.db ∧ ∀ it ∈ dst'.db.items, it.expiry = none) ∧
+    (∀ name, name ∈ dst'.db.profiles.map (·.name) ↔ name ∈ src.db.profiles.map (·.name)) ∧
+    (dst'.db.profiles.map (·.name)).Perm (src.db.profiles.map (·.name)) ∧
+    (∀ p ∈ src.db.profiles, ∃ (hs' : Handle) (sd : Sess) (hd : Handle),
+      resolve src.db src.h p.name = .ok (⟨p.id, p.key⟩, hs') ∧
+      resolve dst'.db dst'.h p.name = .ok (sd, hd) ∧
+      abs sd dst'.db = liveAbs now ⟨p.id, p.key⟩ src.db ∧ KeyCoherent sd dst'.db) :=
+  Lemmas.copy_store_all_profiles page now keyBase src src' dst' existing recreate hfresh hs hwf hcc hdef h
 
 /-- FALSE on the current code: "the target has exactly the source's profiles". -/
 def CopyStoreSameProfiles : Prop := Lemmas.CopyStoreSameProfiles
@@ -168,6 +241,58 @@ example : copyProfile 32 0 none 0 exSrc exSrc "p" "p" = ({ exSrc with h := exSrc
   · simp [exSrc]
   · simp [resolve, cacheGet, exSrc]
   · simp [liveAbs, exSrc, live]
+
+/-- `copy_store_all_profiles`: a source with two profiles and one record each (default profile "p"; the handle has
+    only "p" cached, so "q" goes through the table), page size 1 -/
+def exSrc2 : StoreSt :=
+  { db := { items := [{ id := 1, pid := 1, key := 5, kind := 2, cat := "c", name := "n", value := [1], tags := [], expiry := none },
+                      { id := 2, pid := 2, key := 6, kind := 2, cat := "c", name := "n", value := [2], tags := [], expiry := none }],
+            profiles := [⟨1, "p", 5⟩, ⟨2, "q", 6⟩] },
+    h := { cache := [("p", 1, 5)], nextKey := 7 }, default := "p" }
+
+/-- what `copy_store` leaves at the target (keys from `keyBase = 9`) -/
+def exDst2 : StoreSt :=
+  { db := { items := [{ id := 1, pid := 1, key := 9, kind := 2, cat := "c", name := "n", value := [1], tags := [], expiry := none },
+                      { id := 2, pid := 2, key := 10, kind := 2, cat := "c", name := "n", value := [2], tags := [], expiry := none }],
+            profiles := [⟨1, "p", 9⟩, ⟨2, "q", 10⟩] },
+    h := { cache := [("q", 2, 10), ("p", 1, 9)], nextKey := 11 }, default := "p" }
+
+theorem exSrc2_list : listProfiles exSrc2.db = ["p", "q"] := by
+  simp only [listProfiles, exSrc2, List.map_cons, List.map_nil, List.foldr_cons, List.foldr_nil, insertName,
+    Askar.Wql.Lemmas.utf8_eq]
+  decide
+
+/-- the run succeeds: the success hypothesis of `copy_store_all_profiles` is met by a real run -/
+theorem exSrc2_copy : copyStore 1 0 none 9 exSrc2 none true =
+    ({ exSrc2 with h := { cache := [("q", 2, 6), ("p", 1, 5)], nextKey := 7 } }, some exDst2, .ok ()) := by
+  simp only [copyStore, exSrc2_list]
+  simp [copyLoop, copyProfile, copyInto, resolve, cacheGet, cachePut, createProfile, provision, exSrc2, exDst2, doCount,
+    doScan, selectRows, decryptRows, decryptRow, sortById, insertById, window, batches, drainScan, importScan, importRows,
+    doInsert, nextId, Item.inScope, Item.sameIdent, live, matchFilter, matchTags]
+
+/-- … and so are the other hypotheses -/
+example : Sorted exSrc2.db ∧ ProfilesWF exSrc2.db ∧ CacheCoherent exSrc2.db exSrc2.h ∧
+    exSrc2.default ∈ exSrc2.db.profiles.map (·.name) := by
+  refine ⟨by simp [Sorted, exSrc2], by simp [ProfilesWF, exSrc2], ?_, by simp [exSrc2]⟩
+  intro name pid key hg
+  simp only [exSrc2, cacheGet, List.find?_cons, List.find?_nil] at hg
+  split at hg
+  · rename_i hn
+    simp only [beq_iff_eq] at hn
+    simp only [Option.map_some, Option.some.injEq, Prod.mk.injEq] at hg
+    obtain ⟨rfl, rfl⟩ := hg
+    subst hn
+    simp [exSrc2]
+  · cases hg
+
+/-- the conclusion is not trivially true: both target profiles are non-empty and different -/
+example : abs ⟨1, 9⟩ exDst2.db = [⟨2, "c", "n", [1], []⟩] ∧ abs ⟨2, 10⟩ exDst2.db = [⟨2, "c", "n", [2], []⟩] := by
+  simp [abs, exDst2, toEntry]
+
+/-- the dangling-default case of `copy_store_all_profiles_gen` is met by a real run too (the witness of
+    `copy_store_same_profiles_refuted`): no profile in the source, default profile "a" -/
+example : copyStore 32 0 none 7 { db := {}, h := {}, default := "a" } none true =
+    ({ db := {}, h := {}, default := "a" }, some (provision 7 "a"), .ok ()) := rfl
 
 end Askar.Copy
 
